@@ -11,7 +11,7 @@ V = '/verif'; BASE = os.environ.get('MUT_BASE', '/tmp/me'); REPO = BASE + '/repo
 def sh(cmd, **kw):
     return subprocess.run(cmd, shell=True, stdout=subprocess.PIPE, stderr=subprocess.STDOUT, text=True, **kw)
 def main():
-    sd, name, prop = sys.argv[1], sys.argv[2], sys.argv[3]; checks = sys.argv[4:] or [prop]
+    sd, name, prop = sys.argv[1], sys.argv[2], sys.argv[3]; checks = [prop] + [c for c in sys.argv[4:] if c != prop]
     out = os.path.join(sd, 'out'); res = {'property': prop, 'name': name}
     head = sh('git -C /repo rev-parse HEAD').stdout.strip()
     sh('git -C %s checkout -q --detach %s && git -C %s checkout -- . && git -C %s clean -fdq' % (REPO, head, REPO, REPO))
